@@ -748,6 +748,83 @@ def rktable():
 _main_inval = main
 
 
+# ---------------------------------------------------------------------------------------------
+# C09 / C10 / C19: the glue that distributes a flattened value vector over the symbols of a concatenation
+# (casadi_helpers.for_all_primitives) and that gives every algebraic symbol its rows of the stacked vector (get_ranges_dict):
+# which size (a method call on the loop variable) is used for the slice / range and for the running offset
+def _size_call(node, var):
+    """`var.meth()` -> 'meth' ; anything else -> the unparsed source"""
+    if isinstance(node, ast.Call) and isinstance(node.func, ast.Attribute) and isinstance(node.func.value, ast.Name) \
+            and node.func.value.id == var and not node.args:
+        return node.func.attr
+    return _norm(ast.unparse(node))
+
+
+def _offset_plus(node, offset_name, var):
+    """`offset + var.meth()` -> 'meth'"""
+    if isinstance(node, ast.BinOp) and isinstance(node.op, ast.Add) and isinstance(node.left, ast.Name) and node.left.id == offset_name:
+        return _size_call(node.right, var)
+    return None
+
+
+def gluetable():
+    tree = ast.parse(open(os.path.join(REPO, "rockit", "casadi_helpers.py")).read())
+    rows = []
+    # for_all_primitives:  for p in prim:  callback(p, rhs_type(p.sparsity(), rhs[offset:offset+p.nnz()]));  offset += p.nnz()
+    fn = _find_function(tree, None, "for_all_primitives")
+    found = 0
+    if fn is not None:
+        for loop in [n for n in ast.walk(fn) if isinstance(n, ast.For) and isinstance(n.target, ast.Name)]:
+            var = loop.target.id
+            for n in ast.walk(loop):
+                if isinstance(n, ast.Subscript) and isinstance(n.slice, ast.Slice) and isinstance(n.slice.lower, ast.Name) and n.slice.upper is not None:
+                    size = _offset_plus(n.slice.upper, n.slice.lower.id, var)
+                    if size is not None:
+                        rows.append(("for_all_primitives", "slice", size)); found += 1
+                if isinstance(n, ast.AugAssign) and isinstance(n.op, ast.Add) and isinstance(n.target, ast.Name) and n.target.id == "offset":
+                    rows.append(("for_all_primitives", "stride", _size_call(n.value, var))); found += 1
+    # get_ranges_dict:  next_offset = offset+e.nnz();  ret[e] = list(range(offset, next_offset));  offset = next_offset
+    fn = _find_function(tree, None, "get_ranges_dict")
+    if fn is not None:
+        for loop in [n for n in ast.walk(fn) if isinstance(n, ast.For) and isinstance(n.target, ast.Name)]:
+            var = loop.target.id
+            defs = {}
+            for st in loop.body:
+                if isinstance(st, ast.Assign) and len(st.targets) == 1 and isinstance(st.targets[0], ast.Name):
+                    defs[st.targets[0].id] = st.value
+            for n in ast.walk(loop):
+                if isinstance(n, ast.Call) and isinstance(n.func, ast.Name) and n.func.id == "range" and len(n.args) == 2 \
+                        and isinstance(n.args[0], ast.Name) and n.args[0].id == "offset":
+                    upper = n.args[1]
+                    if isinstance(upper, ast.Name) and upper.id in defs:
+                        upper = defs[upper.id]
+                    size = _offset_plus(upper, "offset", var)
+                    rows.append(("get_ranges_dict", "range", size if size is not None else _norm(ast.unparse(n.args[1])))); found += 1
+            for st in loop.body:
+                if isinstance(st, ast.Assign) and len(st.targets) == 1 and isinstance(st.targets[0], ast.Name) and st.targets[0].id == "offset":
+                    val = st.value
+                    if isinstance(val, ast.Name) and val.id in defs:
+                        val = defs[val.id]
+                    size = _offset_plus(val, "offset", var)
+                    rows.append(("get_ranges_dict", "stride", size if size is not None else _norm(ast.unparse(st.value)))); found += 1
+                if isinstance(st, ast.AugAssign) and isinstance(st.target, ast.Name) and st.target.id == "offset":
+                    rows.append(("get_ranges_dict", "stride", _size_call(st.value, var))); found += 1
+    L = ["/-! GENERATED by tools/extract.py from /repo/rockit/casadi_helpers.py — do not edit. -/",
+         "namespace Rockit.Generated", "",
+         "/-- (function, what, size used): which size of the loop variable gives the length of the slice / range handed to a symbol and",
+         "the advance of the running offset, in `for_all_primitives` (set_value / set_initial / set_der on a concatenation) and in",
+         "`get_ranges_dict` (rows of every algebraic symbol) -/",
+         "def glueSizes : List (String × String × String) := ["]
+    for i, (a, b_, c) in enumerate(rows):
+        L.append('  ("%s", "%s", "%s")%s' % (a, b_, c, "," if i < len(rows) - 1 else ""))
+    L += ["]", "", "end Rockit.Generated", ""]
+    path = os.path.join(OUT, "Glue.lean")
+    new_src = "\n".join(L)
+    if not os.path.exists(path) or open(path).read() != new_src:
+        open(path, "w").write(new_src)
+    return rows
+
+
 def main():
     rows = _main_inval()
     guards()
@@ -755,6 +832,7 @@ def main():
     clonetable()
     readstable()
     rktable()
+    gluetable()
     return rows
 
 
